@@ -19,6 +19,7 @@ def generate(rng, tier):
     n = 300 if tier == 'quick' else 5000
     o = gen.Opts(p_singleton=0.7, p_extern_val=0.8, p_extern_type=0.4, p_enum=0.4, p_flags=0.7, p_backend=0.0, p_impl=0.1,
                  p_vftable=0.2, max_modules=2, max_items=4, max_fields=3)
+    o.p_noncopy_singleton = 0.6
     out = []
     for i in range(n):
         c = gen.world(rng, 'w%d' % i, opts=o)
